@@ -161,6 +161,12 @@ class Models:
         b["NotImplementedError"] = ExcClass("NotImplementedError")
 
         self.modules["math"] = ModelModule("math", {"floor": Builtin("floor", self.m_floor), "sqrt": Builtin("sqrt", self.m_sqrt), "isclose": Builtin("isclose", self.m_isclose)})
+        # the clock is an input nobody controls: every reading is a fresh, unconstrained real (code whose RESULT depends on it then
+        # fails its postcondition on some path instead of falling outside the interpreter)
+        clock = lambda nm: Builtin(nm, lambda I, a, k, nm=nm: SReal(I.path.fresh_real(f"clock_{nm}")))
+        self.modules["time"] = ModelModule("time", {nm: clock(nm) for nm in ("monotonic", "time", "perf_counter", "process_time")})
+        for nm in ("monotonic", "time", "perf_counter", "process_time"):
+            self.froms[("time", nm)] = self.modules["time"].attrs[nm]
         self.froms[("math", "isclose")] = self.modules["math"].attrs["isclose"]
         self.froms[("math", "floor")] = self.modules["math"].attrs["floor"]
         self.froms[("math", "sqrt")] = self.modules["math"].attrs["sqrt"]
